@@ -92,6 +92,7 @@ class State:
     def __init__(self, layout):
         self.layout = layout; self.rows = []; self.headers = None; self.universe = []; self.zero = {}
         self.label = None; self.feats_ok = False; self.arff_fresh = False; self.missing = []
+        self.posmap = None     # sparse rows behind a header map with integer positions: position -> current header name
     def copy(self):
         s = State(self.layout)
         s.rows = [r.copy() if isinstance(r, dict) else list(r) for r in self.rows]
@@ -99,6 +100,7 @@ class State:
         s.universe = list(self.universe); s.zero = dict(self.zero); s.label = self.label
         s.feats_ok = self.feats_ok; s.arff_fresh = self.arff_fresh; s.missing = list(self.missing)
         if hasattr(self, "_ncols"): s._ncols = self._ncols
+        s.posmap = None if self.posmap is None else dict(self.posmap)
         return s
     def alive_rows(self): return self.rows
     def ncols(self):
@@ -108,9 +110,15 @@ class State:
         if self.layout == "dense": return self._ncols
         return max([len(r) for r in self.rows], default=0)
     def name_of(self, pos):
-        for n, p in self.headers.items():
+        for n, p in (self.headers or {}).items():
             if p == pos: return n
         raise Invalid("no name")
+    def name_or_none(self, pos):
+        for n, p in (self.headers or {}).items():
+            if p == pos: return n
+        return None
+    def partial_headers(self):
+        return self.layout == "dense" and bool(self.headers) and len(self.headers) < self._ncols
     def has_cats(self):
         it = (v for r in self.rows for v in (r.values() if isinstance(r, dict) else r))
         return any(isinstance(v, MCat) for v in it)
@@ -156,6 +164,7 @@ def model_source(layout, src):
                 st.missing.append("?" in toks)
         else:
             st.universe = list(names)
+            st.posmap = dict(enumerate(names))
             types = [(ty, (["0"] + lv) if ty == "nom" else lv) for ty, lv in types]
             for ty, lv in types:
                 if ty == "nom" and len(set(lv)) != len(lv): raise Invalid("level 0 used")
@@ -175,6 +184,19 @@ def model_source(layout, src):
                     elif ty == "x" and xz[n] is not _ABSENT: row[n] = xz[n]
                 st.rows.append(row)
                 st.missing.append("?" in present.values())
+        return st
+    if kind == "csv_text":
+        if layout != "dense": raise Invalid("csv is dense")
+        rows = [list(r) for r in src["rows"]]
+        if not rows or len({len(r) for r in rows}) != 1 or not rows[0]: raise Invalid("ragged/empty")
+        ok = lambda c: isinstance(c, str) and not any(ch in c for ch in ',"\r\n')
+        if not all(ok(c) for r in rows for c in r): raise Invalid("csv dialect questions are not C13's")
+        if len(rows[0]) == 1 and any(r[0] == "" for r in rows): raise Invalid("a blank line is not a row")
+        st._ncols = len(rows[0]); st.rows = rows; st.missing = [False] * len(rows)
+        hdr = src.get("header")
+        if hdr is not None:
+            if not hdr or len(hdr) > st._ncols or len(set(hdr)) != len(hdr) or not all(ok(h) and h for h in hdr): raise Invalid("csv header")
+            st.headers = {n: i for i, n in enumerate(hdr)}
         return st
     if layout == "dense":
         if kind not in ("list", "tuple", "lazy", "lazy_loader"): raise Invalid(kind)
@@ -267,11 +289,20 @@ def apply_stage(st, s):
     row_only = False
     if k == "head":
         if dense:
-            names = s["names"]
-            if len(names) != st._ncols or len(set(names)) != len(names) or not names: raise Invalid("head names")
-            if any(not isinstance(n, str) for n in names): raise Invalid("head names")
-            if s["form"] == "perm" and sorted(s.get("order", [])) != list(range(len(names))): raise Invalid("order")
-            st.headers = {n: i for i, n in enumerate(names)}
+            if s["form"] == "pmap":                          # a mapping that names only some of the columns
+                pairs = [(n, p) for n, p in s["map"]]
+                names = [n for n, _ in pairs]; poss = [p for _, p in pairs]
+                if not pairs or len(set(names)) != len(names) or len(set(poss)) != len(poss): raise Invalid("head map")
+                if any(not isinstance(n, str) for n in names): raise Invalid("head names")
+                if any(isinstance(p, bool) or not isinstance(p, int) or not 0 <= p < st._ncols for p in poss): raise Invalid("head pos")
+                st.headers = dict(pairs)
+            else:
+                names = s["names"]
+                if len(set(names)) != len(names) or not names: raise Invalid("head names")
+                if len(names) > st._ncols or (len(names) < st._ncols and s["form"] != "seq"): raise Invalid("head names")
+                if any(not isinstance(n, str) for n in names): raise Invalid("head names")
+                if s["form"] == "perm" and sorted(s.get("order", [])) != list(range(len(names))): raise Invalid("order")
+                st.headers = {n: i for i, n in enumerate(names)}
         else:
             if s["form"] == "seq":
                 if sorted(st.universe, key=repr) != list(range(len(st.universe))): raise Invalid("seq head needs 0..n-1")
@@ -287,6 +318,10 @@ def apply_stage(st, s):
             st.universe = [inv[kk] for kk in st.universe]
             st.zero = {inv[kk]: z for kk, z in st.zero.items()}
             if st.label is not None: st.label = inv.get(st.label)
+            # an integer label after this stage means 'the column this header map puts at that position'; when the
+            # keys under the map are names themselves (a second header map, ARFF names) no position is left
+            pm = {key: n for n, key in fwd.items() if isinstance(key, int) and not isinstance(key, bool)}
+            st.posmap = pm if len(pm) == len(fwd) and pm else None
     elif k == "encode":
         if dense:
             if s["form"] == "seq":
@@ -353,6 +388,7 @@ def apply_stage(st, s):
                 st.universe = [u for u in st.universe if u not in ds]
                 for d in ds: st.zero.pop(d, None)
                 if st.label in ds: st.label = None
+                if st.posmap: st.posmap = {p: n for p, n in st.posmap.items() if n not in ds}
     elif k == "label":
         if st.label is not None: raise Invalid("one label stage")
         key = s["key"]
@@ -363,6 +399,10 @@ def apply_stage(st, s):
             if not (isinstance(key, int) and not isinstance(key, bool) and 0 <= key < st._ncols): raise Invalid("label pos")
             st.label = key
         else:
+            if s.get("via") == "pos":                          # label given by position on rows keyed by header name
+                if not st.posmap or isinstance(key, (str, bool)) or key not in st.posmap: raise Invalid("label pos")
+                key = st.posmap[key]
+            elif st.posmap and not isinstance(key, str): raise Invalid("an integer label on rows with a header map is a position")
             if key not in st.universe: raise Invalid("label key")
             for r in st.rows: r.setdefault(key, 0)
             st.zero[key] = None
@@ -391,6 +431,7 @@ def apply_stage(st, s):
                 new.append(o)
             st.rows = new; st._ncols = len(new[0]); st.headers = None; st.label = None
         else:
+            st.posmap = None
             catk = [u for u in st.universe if any(isinstance(r.get(u), MCat) for r in st.rows)]
             if any(not isinstance(r.get(u), MCat) for r in st.rows for u in catk): raise Invalid("categorical column absent / other cells")
             if tipe == "onehot":
@@ -440,9 +481,17 @@ def materialise_prefix(spec, i, lazy=False):
     if spec["layout"] == "dense":
         new = {"kind": "lazy" if lazy else "list", "rows": [to_spec_row(r) for r in st.rows]}
         if st.headers:
-            names = [n for n, _ in sorted(st.headers.items(), key=lambda kv: kv[1])]
-            if len(names) == st._ncols: rest = [{"k": "head", "form": "seq", "names": names}] + rest
+            pairs = sorted(st.headers.items(), key=lambda kv: kv[1])
+            if len(pairs) == st._ncols: rest = [{"k": "head", "form": "seq", "names": [n for n, _ in pairs]}] + rest
+            else: rest = [{"k": "head", "form": "pmap", "map": [[n, p] for n, p in pairs]}] + rest
         return dict(spec, source=new, stages=rest)
+    if st.posmap and any(s["k"] == "label" and s.get("via") == "pos" for s in rest):
+        # a later stage picks its label by position: keep the positions as keys of plain dicts under a header map
+        n2p = {n: p for p, n in st.posmap.items()}
+        if all(u in n2p for u in st.universe) and st.universe:
+            new = {"kind": "lazy" if lazy else "dict", "cols": [[n2p[u], st.zero.get(u)] for u in st.universe],
+                   "rows": [[[n2p[k], to_spec(v)] for k, v in r.items()] for r in st.rows]}
+            return dict(spec, source=new, stages=[{"k": "head", "form": "map", "map": [[u, n2p[u]] for u in st.universe]}] + rest)
     new = {"kind": "lazy" if lazy else "dict", "cols": [[u, st.zero.get(u)] for u in st.universe], "rows": [to_spec_dict(r) for r in st.rows]}
     return dict(spec, source=new, stages=rest)
 
@@ -455,8 +504,8 @@ def plain_equivalent(spec):
         new = {"kind": "list", "rows": [to_spec_row(r) for r in st.rows]}
         stages = list(spec["stages"])
         if st.headers:
-            names = [n for n, _ in sorted(st.headers.items(), key=lambda kv: kv[1])]
-            stages = [{"k": "head", "form": "seq", "names": names}] + stages
+            pairs = sorted(st.headers.items(), key=lambda kv: kv[1])
+            stages = [{"k": "head", "form": "pmap", "map": [[n, p] for n, p in pairs]}] + stages
         return dict(spec, source=new, stages=stages)
     new = {"kind": "dict", "cols": [[u, st.zero.get(u)] for u in st.universe], "rows": [to_spec_dict(r) for r in st.rows]}
     return dict(spec, source=new)
@@ -489,6 +538,11 @@ def chain_of(row):
 def real_source(layout, src):
     from coba.pipes.rows import LazyDense, LazySparse
     kind = src["kind"]
+    if kind == "csv_text":
+        from coba.pipes.readers import CsvReader
+        hdr = src.get("header")
+        lines = ([",".join(hdr)] if hdr is not None else []) + [",".join(r) for r in src["rows"]]
+        return CsvReader(has_header=hdr is not None).filter(lines)
     if kind == "arff_text":
         if any(a[1].startswith("x:") for a in src["attrs"]): raise Invalid("custom encoders need arff_lazy")
         from coba.pipes.readers import ArffReader
@@ -556,6 +610,7 @@ def real_filter(layout, s):
         if layout == "dense":
             if s["form"] == "seq": return HeadRows(list(s["names"]))
             if s["form"] == "map": return HeadRows({n: i for i, n in enumerate(s["names"])})
+            if s["form"] == "pmap": return HeadRows({n: p for n, p in s["map"]})
             return HeadRows({s["names"][i]: i for i in s["order"]})
         if s["form"] == "seq": return HeadRows(list(s["names"]))
         return HeadRows({n: key for n, key in s["map"]})
